@@ -1,4 +1,5 @@
 import CoclsModel.SharedFutureTrace
+import CoclsModel.SharedFutureApiProofs
 /-!
 # C17 — shared_future: one result for all copies; state lives exactly as long as needed
 
@@ -185,3 +186,189 @@ theorem c17_asis_lshift_freed_while_pending :
     (run exLsAsIs (init exLsAsIs) [0, 0, 0, 1, 1]).uaf = 1 := by decide
 
 end Cocls.SharedFuture
+
+namespace Cocls.SharedFutureApi
+
+/-! # C17 at the level of whole calls: every access spelling, any number of handles and states, the stored value's state
+
+Model: `CoclsModel/SharedFutureApi.lean` — a history is ANY list of calls `ops : List Op` of the public interface
+(construction paths, copy / copy-assignment / destruction of handles, `init_if_needed()`, `get_promise()`, `operator<<`,
+the promise used in any of the four ways, every observer spelling `Sp` on any handle at any point, the user moving the
+value out).  The stored value carries its state (`Res.val v intact`): a moved-from value is observable (`Obs.moved`).
+`run init ops` is the state after the history; the theorems are proved by induction over the history (`inv_run`). -/
+
+/-- the spellings that hand out the stored value (or throw the stored exception) -/
+def Sp.returnsValue : Sp → Bool
+  | Sp.value => true | Sp.cvalue => true | Sp.wait => true | Sp.fwait => true
+  | Sp.cwait => true | Sp.cjoin => true | Sp.cderef => true
+  | _ => false
+
+/-- **One result, whatever the spelling and whichever copy.** After ANY history, a state that has been resolved (by the
+promise or by a factory) and whose value the user has not moved out shows exactly what the resolver stored — value intact —
+to every value-returning spelling (`value()`, `wait()`, `force_wait()`, `operator Base&` + `value()` / `wait()` / `join()` /
+`operator*`), to `join()` (returns / throws accordingly), to a `co_await` or callback awaiter created now, and `ready()`
+is true: the answers are functions of the state alone (not of the handle) and the state holds the resolver's result. -/
+theorem c17_api_single_result (ops : List Op) (k : Nat) (ss : SState) (rk : RK)
+    (hk : (run init ops).states[k]? = some ss) (hr : ss.resolvedBy = some rk) (ht : ss.taken = false) :
+    look ss = rk.obs ∧ readyOf ss = true ∧
+    (∀ sp : Sp, sp.returnsValue = true → seeOut sp k ss = Out.o (some k) rk.obs) ∧
+    seeOut Sp.join k ss = Out.j k rk.obs := by
+  have hg : Good ss := inv_run ops init inv_init ss (List.mem_of_getElem? hk)
+  have hph : ss.phase = Phase.ready := by
+    refine Classical.byContradiction fun hn => ?_
+    have := (hg.unresolved hn).2.1
+    rw [hr] at this; cases this
+  obtain ⟨rk', h1, h2⟩ := hg.resolved hph
+  rw [hr] at h1; cases h1
+  have hres := h2 ht
+  have hl : look ss = rk.obs := by
+    unfold look; rw [hres, hph]; cases rk <;> rfl
+  refine ⟨hl, by simp [readyOf, hph], fun sp hsp => ?_, by simp [seeOut, hl]⟩
+  cases sp <;> simp [Sp.returnsValue] at hsp <;> simp [seeOut, hl]
+
+/-- **`ready()` is false until the resolution** — at every point of the late-initialisation life cycle (no state,
+`init_if_needed()` done, copies taken, `get_promise()` done) and on every handle: after ANY history, `ready()` (and
+`ready()` through `operator Base&`) answers true on handle `i` only if the handle has a state and that state has been
+resolved (`resolvedBy` is set by the promise call / promise destruction / the ready-made factories only). -/
+theorem c17_api_ready_only_when_resolved (ops : List Op) (sp : Sp) (hsp : sp = Sp.ready ∨ sp = Sp.cready) (i : Nat) (kk : Option Nat)
+    (h : (opSee (run init ops) sp i).2.1 = Out.b kk true) :
+    ∃ k ss, kk = some k ∧ handleAt (run init ops) i = Handle.at k ∧ (run init ops).states[k]? = some ss ∧ ss.resolvedBy.isSome = true := by
+  generalize hs : run init ops = s at h
+  have hinv : Inv s := hs ▸ inv_run ops init inv_init
+  unfold opSee at h
+  split at h
+  · cases h
+  · rcases hsp with rfl | rfl <;> simp at h
+  · rename_i k hk
+    split at h
+    · cases h
+    · rename_i ss hss
+      have hg : Good ss := hinv ss (List.mem_of_getElem? hss)
+      have hcls : sp.cls = SpClass.poll := by rcases hsp with rfl | rfl <;> rfl
+      rw [hcls] at h
+      simp only at h
+      have hrd : readyOf ss = true ∧ kk = some k := by
+        rcases hsp with rfl | rfl <;> (simp only [seeOut, Out.b.injEq] at h; exact ⟨h.2, h.1.symm⟩)
+      have hph : ss.phase = Phase.ready := by simpa [readyOf] using hrd.1
+      obtain ⟨rk, h1, _⟩ := hg.resolved hph
+      exact ⟨k, ss, hrd.2, hk, hss, by simp [h1]⟩
+
+/-- **Nothing but `notready` / `canceled` before the resolution**: after ANY history an unresolved state yields no value
+and no exception to any spelling, and `ready()` is false. -/
+theorem c17_api_unresolved_shows_nothing (ops : List Op) (k : Nat) (ss : SState)
+    (hk : (run init ops).states[k]? = some ss) (hr : ss.resolvedBy = none) :
+    readyOf ss = false ∧ (look ss = Obs.notready ∨ look ss = Obs.canceled) := by
+  have hg : Good ss := inv_run ops init inv_init ss (List.mem_of_getElem? hk)
+  have hph : ss.phase ≠ Phase.ready := by
+    intro hp
+    obtain ⟨rk, h1, _⟩ := hg.resolved hp
+    rw [hr] at h1; cases h1
+  have hres := (hg.unresolved hph).1
+  refine ⟨by simp [readyOf, hph], ?_⟩
+  unfold look; rw [hres]
+  by_cases hp : ss.phase = Phase.pending <;> simp [hp]
+
+/-- **No access spelling of any copy changes what later accesses observe.** From ANY state, an observer call in any
+spelling on any handle — and likewise creating, copying, assigning, destroying handles and `init_if_needed()` — leaves
+phase, stored result (including intact / moved-from), and resolution of EVERY state as they were; only the resolver, the
+calls attaching a promise and the user's explicit `std::move(h.value())` (`Op.mutates`) are exempt. -/
+theorem c17_api_access_changes_nothing (s : St) (op : Op) (hq : op.mutates = false) (k : Nat) (ss : SState)
+    (h : s.states[k]? = some ss) :
+    ∃ ss', (step s op).1.states[k]? = some ss' ∧ ss'.phase = ss.phase ∧ ss'.res = ss.res ∧
+      ss'.resolvedBy = ss.resolvedBy ∧ ss'.taken = ss.taken ∧ look ss' = look ss ∧ readyOf ss' = readyOf ss := by
+  obtain ⟨ss', h1, hv⟩ := quiet_keeps_view s op hq k ss h
+  simp only [view, Prod.mk.injEq] at hv
+  obtain ⟨a, b, c, d⟩ := hv
+  exact ⟨ss', h1, a, b, c, d, by simp [look, a, b], by simp [readyOf, a]⟩
+
+/-- the same over whole histories: any sequence of non-mutating calls (any spellings by any holders, in any order) -/
+theorem c17_api_accesses_change_nothing (ops : List Op) (hq : ∀ op ∈ ops, op.mutates = false) :
+    ∀ (s : St) (k : Nat) (ss : SState), s.states[k]? = some ss →
+    ∃ ss', (run s ops).states[k]? = some ss' ∧ look ss' = look ss ∧ readyOf ss' = readyOf ss ∧ ss'.res = ss.res := by
+  induction ops with
+  | nil => intro s k ss h; exact ⟨ss, h, rfl, rfl, rfl⟩
+  | cons o l ih =>
+      intro s k ss h
+      obtain ⟨s1, h1, _, hres, _, _, hl, hr⟩ := c17_api_access_changes_nothing s o (hq o (by simp)) k ss h
+      obtain ⟨s2, h2, hl2, hr2, hres2⟩ := ih (fun op hop => hq op (by simp [hop])) (step s o).1 k s1 h1
+      exact ⟨s2, h2, hl2.trans hl, hr2.trans hr, hres2.trans hres⟩
+
+/-- **All copies agree**: two handles that share a state get the same answer (and cause the same events and the same
+successor state) from every spelling. -/
+theorem c17_api_copies_agree (s : St) (sp : Sp) (i j : Nat) (h : handleAt s i = handleAt s j) :
+    opSee s sp i = opSee s sp j := by
+  unfold opSee; rw [h]
+
+/-- **An intact value stays intact unless the user moves it out**: from any reachable state, no call other than `take`
+turns a stored intact value into anything else. -/
+theorem c17_api_only_take_moves (ops : List Op) (op : Op) (hop : ∀ i, op ≠ Op.take i) (k v : Nat) (ss : SState)
+    (h : (run init ops).states[k]? = some ss) (hv : ss.res = Res.val v true) :
+    ∃ ss', (step (run init ops) op).1.states[k]? = some ss' ∧ ss'.res = Res.val v true := by
+  generalize hs : run init ops = s at h
+  have hinv : Inv s := hs ▸ inv_run ops init inv_init
+  have hg : Good ss := hinv ss (List.mem_of_getElem? h)
+  have hph : ss.phase = Phase.ready := by
+    refine Classical.byContradiction fun hn => ?_
+    have := (hg.unresolved hn).1
+    rw [hv] at this; cases this
+  have hnp : ss.promised = false := by
+    cases hp : ss.promised
+    · rfl
+    · have := hg.promised hp; rw [hph] at this; cases this
+  have keepP : ∃ ss', (modAt s.states k promiseS)[k]? = some ss' ∧ ss'.res = Res.val v true := by
+    refine ⟨ss, ?_, hv⟩
+    rw [getElem?_modAt]; simp [h, promiseS, hph]
+  by_cases hm : op.mutates = false
+  · obtain ⟨ss', h1, _, hres, _⟩ := c17_api_access_changes_nothing s op hm k ss h
+    exact ⟨ss', h1, hres.trans hv⟩
+  · have hf : ∀ (f : SState → SState) (j : Nat), f ss = ss → ∃ ss', (modAt s.states j f)[k]? = some ss' ∧ ss'.res = Res.val v true := by
+      intro f j hfix
+      rw [getElem?_modAt]
+      split
+      · exact ⟨f ss, by simp [h], by rw [hfix]; exact hv⟩
+      · exact ⟨ss, h, hv⟩
+    have hP : promiseS ss = ss := by simp [promiseS, hph]
+    have hR : ∀ rk, resolveS rk ss = ss := by intro rk; simp [resolveS, hnp]
+    cases op with
+    | take i => exact absurd rfl (hop i)
+    | resolve j rk =>
+        simp only [step, opResolve]
+        repeat' split
+        all_goals first | exact ⟨ss, h, hv⟩ | exact hf _ _ (hR rk)
+    | getp i =>
+        simp only [step, opGetp]
+        repeat' split
+        all_goals first
+          | exact ⟨ss, h, hv⟩
+          | exact hf _ _ hP
+          | (obtain ⟨s1, h1, e1⟩ := view_snoc_keep (promiseS freshState) k ss h
+             exact ⟨s1, h1, by simp only [view, Prod.mk.injEq] at e1; exact e1.2.1.trans hv⟩)
+    | lshift i =>
+        simp only [step, opLshift]
+        repeat' split
+        all_goals first | exact ⟨ss, h, hv⟩ | exact hf _ _ hP
+    | _ => simp [Op.mutates] at hm
+
+/-! ### The hypotheses are satisfiable: the histories of the two corpus files -/
+
+/-- late initialisation with a poll at every point: default-constructed, `init_if_needed()`, a copy, `get_promise()`,
+resolved — `ready()` on the copy is false, false, then true; then `join()` through the copy and a re-read through the
+original -/
+def exLate : List Op :=
+  [Op.new, Op.init 0, Op.copy 0, Op.see Sp.ready 1, Op.getp 0, Op.see Sp.ready 1, Op.resolve 0 (RK.value 42)]
+
+example : (opSee (run init [Op.new]) Sp.ready 0).2.1 = Out.b none false := by decide
+example : (opSee (run init [Op.new, Op.init 0, Op.copy 0]) Sp.ready 1).2.1 = Out.b (some 0) false := by decide
+example : (opSee (run init [Op.new, Op.init 0, Op.copy 0]) Sp.value 1).2.1 = Out.o (some 0) Obs.canceled := by decide
+example : (opSee (run init [Op.new, Op.init 0, Op.copy 0, Op.getp 0]) Sp.ready 1).2.1 = Out.b (some 0) false := by decide
+example : (opSee (run init exLate) Sp.ready 1).2.1 = Out.b (some 0) true := by decide
+example : (run init exLate).states[0]? =
+    some { phase := Phase.ready, res := Res.val 42 true, refs := 2, resolvedBy := some (RK.value 42) } := by decide
+example : (opSee (run init (exLate ++ [Op.see Sp.join 1])) Sp.value 0).2.1 = Out.o (some 0) (Obs.val 42) := by decide
+/-- the stored value's state is real data: after the user's explicit move every copy observes `moved` -/
+example : (opSee (run init (exLate ++ [Op.take 1])) Sp.value 0).2.1 = Out.o (some 0) Obs.moved := by decide
+/-- suspended awaiters of both kinds observe the resolver's value when the promise is called -/
+example : (step (run init [Op.mk Mk.pf, Op.copy 0, Op.see Sp.coro 1, Op.see Sp.cb 0, Op.drop 0, Op.drop 1]) (Op.resolve 0 (RK.value 7))).2.2 =
+    [Ev.obs 1 WK.cb (Obs.val 7), Ev.obs 0 WK.coro (Obs.val 7), Ev.freed 0] := by decide
+
+end Cocls.SharedFutureApi
